@@ -6,6 +6,7 @@ timeout = 600
 function = "LegalizerBase::checkAllPlaced, getOrientation, importLegalization; AbacusLegalizer::check (soundness), evaluatePlacement; Legalizer::run (order) (legalizer.cpp, abacus_legalizer.cpp)"
 variants = [
   {name = "checkAllPlaced", enforce = "LegalizerBase_checkAllPlaced", defines = ["H_ALLPLACED"]},
+  {name = "remainingObstacles", properties = ["C01"], enforce = "remaining_obstacles", defines = ["H_REMOBST"]},
   {name = "getOrientation", enforce = "LegalizerBase_getOrientation", defines = ["H_GETORIENT"], loop_contracts = false},
   {name = "import", safety_tier = "thorough", enforce = "LegalizerBase_importLegalization", defines = ["H_IMPORT"]},
   {name = "abacusCheck", enforce = "AbacusLegalizer_check", defines = ["H_ABACUSCHECK"], replace = ["LegalizerBase_check"]},
@@ -61,6 +62,40 @@ this_members = {file = "src/place_detailed/legalizer.hpp", class = "LegalizerBas
 #define isPlaced(c) LegalizerBase_isPlaced(this, c)
 int n, m, g;
 int g_other; CellOrientation g_orient;
+
+#ifdef H_REMOBST
+/* first loop of LegalizerBase::remainingRows (sliced): the obstacles handed to Row::freespace (C15 units) */
+int g_nobst; bool g_obst_pushed; Rectangle g_obst_rec;
+#define OBST_EMPLACE(a, b, c, d) do { if (i == g) { g_obst_pushed = 1; g_obst_rec = (Rectangle){(a), (b), (c), (d)}; } if (g_nobst < NMAX) g_nobst++; } while (0)
+void remaining_obstacles(const LegalizerBase *this)
+__CPROVER_requires(__CPROVER_is_fresh(this, sizeof(*this)) && verif_exc == 0 && 0 <= n && n <= NMAX && CFRESH(this, cellWidth_, n, int) && CFRESH(this, cellHeight_, n, int) && CFRESH(this, cellToX_, n, int) && CFRESH(this, cellToY_, n, int) && CFRESH(this, cellIsPlaced_, n, bool))
+__CPROVER_requires(0 <= g && g < n && !g_obst_pushed && g_nobst == 0 && MAGV(this->cellToX_[g]) && MAGV(this->cellToY_[g]) && MAGSZ(this->cellWidth_[g]) && MAGSZ(this->cellHeight_[g]))
+/* C01: every cell placed so far is cut out of the rows that remain for the next pass, as the rectangle it occupies
+ * [x, x + width) x [y, y + height) (Rectangle is (minX, maxX, minY, maxY)); cells not placed yet are not */
+__CPROVER_ensures(g_obst_pushed == this->cellIsPlaced_[g])
+__CPROVER_ensures(this->cellIsPlaced_[g] ==> (g_obst_rec.minX == this->cellToX_[g] && g_obst_rec.maxX == this->cellToX_[g] + this->cellWidth_[g] && g_obst_rec.minY == this->cellToY_[g] && g_obst_rec.maxY == this->cellToY_[g] + this->cellHeight_[g]))
+__CPROVER_assigns(g_nobst, g_obst_pushed, g_obst_rec)
+/*@extract
+file = "src/place_detailed/legalizer.cpp"
+head = 'std::vector<Row> LegalizerBase::remainingRows\(\) const'
+slice_from = 'for \(int i = 0; i < nbCells\(\); \+\+i\) \{'
+slice_to = 'std::vector<Row> ret;'
+this_members = {file = "src/place_detailed/legalizer.hpp", class = "LegalizerBase"}
+nloops = 1
+rewrites = [['obstacles\.emplace_back\(', 'OBST_EMPLACE(', '1+']]
+[[loops]]
+ordinal = 1
+contract = """
+__CPROVER_assigns(i, g_nobst, g_obst_pushed, g_obst_rec)
+__CPROVER_loop_invariant(0 <= i && i <= n && 0 <= g_nobst && (g >= i ==> !g_obst_pushed))
+__CPROVER_loop_invariant(g < i ==> (g_obst_pushed == this->cellIsPlaced_[g] && (this->cellIsPlaced_[g] ==> (g_obst_rec.minX == this->cellToX_[g] && g_obst_rec.maxX == this->cellToX_[g] + this->cellWidth_[g] && g_obst_rec.minY == this->cellToY_[g] && g_obst_rec.maxY == this->cellToY_[g] + this->cellHeight_[g]))))
+__CPROVER_decreases(n - i)
+"""
+[[ghosts]]
+at = 'body_start:1'
+text = """GHOST(const int g_x = this->cellToX_[i]; const int g_y = this->cellToY_[i]; const int g_w = this->cellWidth_[i]; const int g_h = this->cellHeight_[i];) __CPROVER_assume(MAGV(g_x) && MAGV(g_y) && MAGSZ(g_w) && MAGSZ(g_h)); /* INSTANTIATE MAG(i) */"""
+@*/
+#endif
 
 #ifdef H_ALLPLACED
 void LegalizerBase_checkAllPlaced(const LegalizerBase *this)
@@ -311,6 +346,8 @@ void harness(void) {
   LegalizerBase *l, *l2; int a, b; int *cells;
 #if defined(H_ALLPLACED)
   LegalizerBase_checkAllPlaced(l);
+#elif defined(H_REMOBST)
+  remaining_obstacles(l);
 #elif defined(H_GETORIENT)
   LegalizerBase_getOrientation(l, a, b);
 #elif defined(H_IMPORT)
